@@ -6,6 +6,8 @@
 // carries "cyclic":true and the case ends there (printing would not terminate).
 #include "common.h"
 #include "runtime/d_array.h"
+#include "runtime/d_boolean.h"
+#include "runtime/d_scalar.h"
 #include "operators/ops_hashmap.h"
 
 #include <algorithm>
@@ -66,7 +68,7 @@ static J proj_deep(const value& v, int depth = 0)
         J arr = J::arr();
         for (auto& i : items) { arr.push(i.second); }
         J j = J::obj();
-        j.set("t", "h").set("v", arr);
+        j.set("t", "h").set("h", arr);
         return j;
     }
     if (!v.empty() && v.is<sqf::runtime::t_array>() && depth < 6)
@@ -74,7 +76,7 @@ static J proj_deep(const value& v, int depth = 0)
         J arr = J::arr();
         for (auto& e : *v.data<sqf::types::d_array>()) { arr.push(proj_deep(e, depth + 1)); }
         J j = J::obj();
-        j.set("t", "a").set("v", arr);
+        j.set("t", "a").set("a", arr);
         return j;
     }
     return proj(v, depth);
@@ -95,7 +97,8 @@ static void cmd_steps(const J& c)
         k++;
         v.logger->all.clear();
         std::string text = s.str("sqf");
-        if (want_ret) { text = "vd__ret = nil; vd__ret = [" + text + "];"; }
+        bool step_ret = want_ret || s.boolean("ret", false);
+        if (step_ret) { text = "vd__ret = nil; vd__ret = [" + text + "];"; }
         auto set = compile(rt, text, "step.sqf", false);
         J o = ev("Obs");
         o.set("k", (long long)k);
@@ -132,12 +135,12 @@ static void cmd_steps(const J& c)
             return scope->contains(lower) ? scope->at(lower) : value();
         };
         for (auto& w : watch) { if (vd_is_cyclic(read(w))) { cyc = true; } }
-        if (want_ret && vd_is_cyclic(read("vd__ret"))) { cyc = true; }
+        if (step_ret && vd_is_cyclic(read("vd__ret"))) { cyc = true; }
         o.set("cyclic", cyc);
         if (!cyc)
         {
             for (auto& w : watch) { vars.set(w, proj_deep(read(w))); }
-            if (want_ret)
+            if (step_ret)
             {
                 auto r = read("vd__ret");
                 J rj = J::obj(); rj.set("t", "none");
@@ -154,3 +157,79 @@ static void cmd_steps(const J& c)
     }
 }
 static registrar r1("steps", cmd_steps);
+
+// eqtable: evaluate a pool of expressions once, then tabulate isEqualTo / == / in / find on all
+// ordered pairs and value::hash() of every element.
+// case: {"id":..,"exprs":["0","\"a\"",...]}
+// emits {"e":"Table","n":N,"vals":[proj],"hash":["<decimal>"],"eq":[[0|1|2]],"eqci":[[..]],"inn":[[..]],"find":[[..]]}
+//   0 false, 1 true, 2 the operator raised an error / is not defined for the operand types
+static int run_bool(vm& v, const std::string& text)
+{
+    auto& rt = *v.rt;
+    v.logger->all.clear();
+    auto set = compile(rt, "vd__r = nil; vd__r = " + text, "eq.sqf", false);
+    if (!set.has_value()) { return 2; }
+    add_context(rt, *set, "eq", false);
+    auto res = rt.execute(sqf::runtime::runtime::action::start);
+    if (res != sqf::runtime::runtime::result::empty && res != sqf::runtime::runtime::result::ok)
+    {
+        rt.execute(sqf::runtime::runtime::action::abort);
+        return 2;
+    }
+    for (auto& d : v.logger->all) { if (d.level <= 1) { return 2; } }
+    auto scope = rt.default_value_scope();
+    if (!scope->contains("vd__r")) { return 2; }
+    auto val = scope->at("vd__r");
+    if (val.empty()) { return 2; }
+    if (val.is<sqf::runtime::t_boolean>()) { return val.data<sqf::types::d_boolean, bool>() ? 1 : 0; }
+    if (val.is<sqf::runtime::t_scalar>()) { return val.data<sqf::types::d_scalar, float>() == 0 ? 1 : 0; } // find: index 0 <=> found
+    return 2;
+}
+static void cmd_eqtable(const J& c)
+{
+    auto v = make_vm();
+    auto& rt = *v.rt;
+    size_t n = c.at("exprs").a.size();
+    {
+        auto set = compile(rt, "vd__p = []; vd__p resize " + std::to_string(n), "eq.sqf", false);
+        add_context(rt, *set, "eq", false);
+        rt.execute(sqf::runtime::runtime::action::start);
+    }
+    J vals = J::arr(), hashes = J::arr();
+    for (size_t i = 0; i < n; i++)
+    {
+        auto set = compile(rt, "vd__p set [" + std::to_string(i) + ", " + c.at("exprs").a[i].s + "]", "eq.sqf", false);
+        if (set.has_value())
+        {
+            add_context(rt, *set, "eq", false);
+            auto res = rt.execute(sqf::runtime::runtime::action::start);
+            if (res != sqf::runtime::runtime::result::empty) { rt.execute(sqf::runtime::runtime::action::abort); }
+        }
+    }
+    auto pool = rt.default_value_scope()->at("vd__p").data<sqf::types::d_array>();
+    for (size_t i = 0; i < n; i++)
+    {
+        auto val = pool->at(i);
+        vals.push(proj_deep(val));
+        hashes.push(std::to_string(val.hash()));
+    }
+    J eq = J::arr(), eqci = J::arr(), inn = J::arr(), fnd = J::arr();
+    for (size_t i = 0; i < n; i++)
+    {
+        J r1 = J::arr(), r2 = J::arr(), r3 = J::arr(), r4 = J::arr();
+        for (size_t j = 0; j < n; j++)
+        {
+            auto a = "(vd__p select " + std::to_string(i) + ")";
+            auto b = "(vd__p select " + std::to_string(j) + ")";
+            r1.push(run_bool(v, a + " isEqualTo " + b));
+            r2.push(run_bool(v, a + " == " + b));
+            r3.push(run_bool(v, a + " in [" + b + "]"));
+            r4.push(run_bool(v, "[" + b + "] find " + a));
+        }
+        eq.push(r1); eqci.push(r2); inn.push(r3); fnd.push(r4);
+    }
+    J t = ev("Table");
+    t.set("n", (long long)n).set("vals", vals).set("hash", hashes).set("eq", eq).set("eqci", eqci).set("inn", inn).set("find", fnd);
+    emit(t);
+}
+static registrar r2("eqtable", cmd_eqtable);
